@@ -110,7 +110,13 @@ pub fn oracle(case: &Case, res: &SpResult) -> (Option<(String, String)>, Vec<&'s
             let a = a.min(top);
             let mut adv = false;
             if a > cum {
-                acked_bytes += seg_len.range((cum + 1)..=a).map(|(_, l)| *l).sum::<u64>();
+                // a size probe that expires at the very instant its ack arrives is re-cut first (the ack then covers
+                // the shorter cut): take for each number the cut that is on the wire last at this instant
+                let len_at = |k: i32, l: u64| -> u64 {
+                    let seq = first.wrapping_add(k as u16);
+                    res.log.iter().filter(|x| x.src == sock && x.t_us == r.t_us && x.idx > r.idx).filter_map(|x| x.pkt.as_ref()).find(|q| q.ptype == refparse::ST_DATA && q.conn_id == res.id_to_peer && q.seq == seq).map(|q| q.payload.len() as u64).unwrap_or(l)
+                };
+                acked_bytes += seg_len.range((cum + 1)..=a).map(|(k, l)| len_at(*k, *l)).sum::<u64>();
                 cum = a;
                 adv = true;
             }
@@ -203,7 +209,7 @@ impl CheckDef for Sp {
 pub fn run(ctx: &mut Ctx) {
     ctx.rule("SP: tx ring initial 64 B..64 KiB, maximum from initial/2 to 1 MiB (incl. max < initial, partial last step); the writer writes as fast as poll_write allows (1 B..256 KiB per call, chunked or not); scripted peer ACK schedules: prompt, slow, one to three segments at a time, stops for good; window large/small. Oracle: accepted - acked <= max(initial, max) after every accepted write; a write is parked only on a full ring (occupancy equals one of initial*2^k capped) and resumes no later than the first ACK that frees space; write errors only after the connection ended; wire-content oracle across growth steps. non-trivial = writer parked >= 1x and >= 1 growth step; distinct by hash of (occupancy bucket, parked) sequence");
     ctx.replay_corpus::<Sp>();
-    ctx.run_generated::<Sp>(ctx.tier.pick(5_000, 150_000));
+    ctx.run_generated::<Sp>(ctx.tier.pick(15_000, 600_000));
 }
 
 pub fn replay(v: &Value) -> Option<i32> {
